@@ -231,7 +231,13 @@ def inline_statement_functions(routine):
 
     # remove statement function declarations as well as statement function argument(s) declarations
     vars_to_remove = {stmt_func.variable.name.lower() for stmt_func in stmt_func_decls}
-    vars_to_remove |= {arg.name.lower() for stmt_func in stmt_func_decls for arg in stmt_func.arguments}
+    # ...unless the same name is also a dummy argument of the routine or an ordinary variable used in its body
+    still_used = {v.name.lower() for v in FindVariables().visit(routine.body)}
+    still_used |= {arg.name.lower() for arg in routine.arguments}
+    vars_to_remove |= {
+        arg.name.lower() for stmt_func in stmt_func_decls for arg in stmt_func.arguments
+        if arg.name.lower() not in still_used
+    }
     spec_map = {stmt_func: None for stmt_func in stmt_func_decls}
     for decl in routine.declarations:
         if any(var in vars_to_remove for var in decl.symbols):
